@@ -87,7 +87,8 @@ for _n, _p in [("ArithmeticError", "Exception"), ("ZeroDivisionError", "Arithmet
                ("ConnectionResetError", "ConnectionError"),
                ("RuntimeError", "Exception"), ("NotImplementedError", "RuntimeError"), ("TypeError", "Exception"),
                ("ValueError", "Exception"), ("UnicodeError", "ValueError"), ("UnicodeDecodeError", "UnicodeError"),
-               ("UnicodeEncodeError", "UnicodeError"), ("SyntaxError", "Exception"), ("StopIteration", "Exception")]:
+               ("UnicodeEncodeError", "UnicodeError"), ("SyntaxError", "Exception"), ("StopIteration", "Exception"),
+               ("NameError", "Exception"), ("UnboundLocalError", "NameError")]:
     bcls("builtins." + _n, "builtins." + _p)
 bcls("asyncio.QueueEmpty", "builtins.Exception")
 bcls("struct.error", "builtins.Exception")
@@ -240,6 +241,10 @@ class Loader:
             return self._mut
         out = set()
         root = os.path.join(self.repo, "msmart")
+        MUTATORS = {"add", "append", "extend", "update", "pop", "remove", "discard", "clear", "insert", "setdefault", "popitem",
+                    "appendleft", "popleft", "put_nowait", "sort", "reverse", "__setitem__", "__delitem__"}
+        containers = {}     # attribute name -> class names that initialise it with a mutable container in the class body
+        mutated = set()     # attribute names mutated in place somewhere (through any object expression)
         for dp, dn, fn in os.walk(root):
             for f in fn:
                 if not f.endswith(".py") or f.startswith("test_") or os.path.basename(dp) == "tests":
@@ -248,7 +253,27 @@ class Loader:
                     tree = ast.parse(open(os.path.join(dp, f)).read())
                 except SyntaxError:
                     continue
+                for n in ast.walk(tree):
+                    if isinstance(n, ast.Call) and isinstance(n.func, ast.Attribute) and n.func.attr in MUTATORS and isinstance(n.func.value, ast.Attribute):
+                        mutated.add(n.func.value.attr)
+                    tg = n.targets if isinstance(n, (ast.Assign, ast.Delete)) else [n.target] if isinstance(n, ast.AugAssign) else []
+                    for t in tg:
+                        if isinstance(t, ast.Subscript) and isinstance(t.value, ast.Attribute):
+                            mutated.add(t.value.attr)
+                        if isinstance(n, ast.AugAssign) and isinstance(t, ast.Attribute):
+                            mutated.add(t.attr)
                 for cls in [n for n in ast.walk(tree) if isinstance(n, ast.ClassDef)]:
+                    for st in cls.body:
+                        val = st.value if isinstance(st, (ast.Assign, ast.AnnAssign)) else None
+                        names = [t.id for t in (st.targets if isinstance(st, ast.Assign) else [st.target] if isinstance(st, ast.AnnAssign) else []) if isinstance(t, ast.Name)]
+                        if val is None or not names:
+                            continue
+                        is_cont = isinstance(val, (ast.List, ast.Dict, ast.Set, ast.ListComp, ast.DictComp, ast.SetComp)) or (
+                            isinstance(val, ast.Call) and (getattr(val.func, "id", None) or getattr(val.func, "attr", None)) in
+                            ("set", "list", "dict", "bytearray", "deque", "defaultdict", "OrderedDict", "Queue", "Counter"))
+                        if is_cont:
+                            for nm in names:
+                                containers.setdefault(nm, set()).add(cls.name)
                     for n in ast.walk(cls):
                         tgts = []
                         if isinstance(n, ast.Assign):
@@ -263,6 +288,11 @@ class Loader:
                                     out.add((t.value.id, t.attr))
                             elif isinstance(t, ast.Attribute) and isinstance(t.value, ast.Call) and isinstance(t.value.func, ast.Name) and t.value.func.id == "type":
                                 out.add(("*", t.attr))
+        # a container created once in a class body and mutated in place anywhere is shared state with a history
+        for nm, clss in containers.items():
+            if nm in mutated:
+                for cn in clss:
+                    out.add((cn, nm))
         self._mut = out
         return out
 
